@@ -396,6 +396,47 @@ def client_programs(c):
           json.dumps(wo['local'][i])[:120], json.dumps(wo[kind][i])[:120], kind, i), {'deployment': kind, 'local': wo['local'], kind: wo[kind]})
 
 
+def many_workers_stage(c):
+  """Forty workers ask ONE study of a gRPC server for a suggestion at the same moment (a worker pool starting up).
+  The hosted policy is the real PartiallySerializableDesignerPolicy, which reads the study and its trials through
+  its supporter while SuggestTrials holds the study's operation lock.  In-process every call returns; behind the
+  server every call must return too (the server's thread pool is finite: nothing a call waits for may itself need a
+  thread of that pool)."""
+  import threading
+  from vcheck import deploy
+  from vizier._src.service import vizier_service_pb2 as vsp
+  n_workers = 40
+  d = deploy.Deployment('grpc', 'ram', hosted=True)
+  try:
+    study = svc.create_study(d.api, 'o', 'many')
+    d.script.alg = {'kind': 'ok', 'sugg': [{'params': 7, 'md': []}], 'delta': []}
+    done, errs = [], []
+    barrier = threading.Barrier(n_workers)
+
+    def work(i):
+      try:
+        barrier.wait(timeout=30)
+        op = d.api.SuggestTrials(vsp.SuggestTrialsRequest(parent=study.name, suggestion_count=1, client_id='w%d' % i), timeout=60)
+        done.append((i, bool(op.done), op.HasField('error')))
+      except Exception as e:  # pylint: disable=broad-except
+        errs.append((i, type(e).__name__, str(e)[:80]))
+    ts = [threading.Thread(target=work, args=(i,), daemon=True) for i in range(n_workers)]
+    for t in ts:
+      t.start()
+    for t in ts:
+      t.join(timeout=45)
+    c.traces += 1
+    c.count(1, ('c08-many-workers',), kind='c08-many-workers')
+    ok = [x for x in done if x[1] and not x[2]]
+    if len(ok) != n_workers:
+      c.prop_fail('concurrent-suggests-do-not-all-return:grpc',
+                  '%d workers asked one study of a gRPC server for a suggestion at the same moment: %d got a finished operation, %d an error, %d had not returned after 45 s (in-process all return)' % (
+                      n_workers, len(ok), len(errs) + len([x for x in done if x[2]]), n_workers - len(done) - len(errs)),
+                  {'deployment': 'grpc', 'workers': n_workers, 'returned': len(done), 'errors': errs[:3]})
+  finally:
+    d.close()
+
+
 def run(c):
   # translator: regenerate the exception -> status facts from the current source (proof obligations)
   from translators import error_table
@@ -409,6 +450,7 @@ def run(c):
   rpc_histories(c)
   hosted_histories(c)
   client_programs(c)
+  many_workers_stage(c)
   svc.cleanup()
   return c.finish(
       level='proof',
